@@ -234,6 +234,10 @@ def build(spec):
   if k == 'all_equals':
     return V.all_equals(a[0])
   if k == 'matches_regex':
+    if spec.get('flags'):
+      # a pattern object that carries flags: handed to the factory, or to the public class next to its source text
+      compiled = re.compile(a[0], _re_flags(spec['flags']))
+      return V.matches_regex(compiled) if spec.get('via') == 'factory' else V.RegexMatcher(a[0], compiled)
     return V.matches_regex(a[0])
   if k in ('pivot', 'cpivot'):
     sub = build(spec['sub'])
@@ -285,7 +289,7 @@ def expected_accept(spec, p):
       return all(v is not None and is_num(v) and key(v) == key(x) for v in p), None
     return all(type(v) == type(x) and v == x for v in p) if isinstance(x, str) else all(v == x for v in p), None
   if k == 'matches_regex':
-    return re.fullmatch('(?:%s)(?s:.*)' % a[0], str(p)) is not None, None
+    return re.fullmatch('(?:%s)(?s:.*)' % a[0], str(p), _re_flags(spec.get('flags') or '')) is not None, None
   if k == 'pivot':
     if not isinstance(p, list):
       return None, None
@@ -338,7 +342,14 @@ def string_probes(s):
 
 
 REGEXES = ['abc', 'a.c', r'\d+', r'^\d+$', 'a|b', '(ab)+', '[a-c]x', 'a?b', r'\d+\.\d+', 'b$', '', r'\s*x', '1', '[A-C]+c']
-REGEX_PROBES = ['abc', 'xabc', 'abcx', 'abd', 'axc', 'a\nc', '123', '123x', 'x123', '12.5', 'a', 'b', 'ab', 'abab', 'cab', 'ax', 'bx',
+def _re_flags(names):
+  f = 0
+  for c in names:
+    f |= {'I': re.IGNORECASE, 'S': re.DOTALL, 'M': re.MULTILINE}[c]
+  return f
+
+
+REGEX_PROBES = ['Abc', 'aBC', 'A\nC', 'AX', 'x\nb', 'x\n123', 'B', 'abc', 'xabc', 'abcx', 'abd', 'axc', 'a\nc', '123', '123x', 'x123', '12.5', 'a', 'b', 'ab', 'abab', 'cab', 'ax', 'bx',
                 'dx', 'b\n', 'b\nx', '', ' x', '\n x', 'ABC', 123, 12.5, 1, None, True, '1', '01', 'xb']
 
 
@@ -629,6 +640,10 @@ def equals_specs():
 def regex_specs():
   for r in REGEXES:
     yield {'k': 'matches_regex', 'a': [r], 'ctor': 'accept'}
+  for r in REGEXES:
+    for flags in ('I', 'S', 'M', 'IS'):
+      for via in ('class', 'factory'):
+        yield {'k': 'matches_regex', 'a': [r], 'flags': flags, 'via': via, 'ctor': 'accept'}
 
 
 def pivot_specs():
